@@ -86,6 +86,7 @@ type Exec struct {
 	initPkg  *ssa.Package
 	obsTerms []obsTerm
 	byteGroups []byteGroup
+	replay   map[string]uint64 // concrete re-execution: every input takes its value from here
 }
 
 type knownClass struct {
@@ -181,6 +182,14 @@ func (ex *Exec) Choose(name string, lo, hi int) int {
 		ex.abort(abInfeasible, "empty choice %s", name)
 	}
 	key := ex.inputName(name)
+	if ex.replay != nil {
+		v := int(int64(ex.replay[key]))
+		if v < lo || v > hi {
+			ex.abort(abInfeasible, "replay value %d for %s outside [%d,%d]", v, key, lo, hi)
+		}
+		ex.choices[key] = uint64(v)
+		return v
+	}
 	if lo == hi {
 		ex.choices[key] = uint64(lo)
 		return lo
@@ -214,7 +223,11 @@ func (ex *Exec) inputName(name string) string {
 }
 
 func (ex *Exec) NewInput(name string, w int) *Term {
-	return ex.ts.Var(ex.inputName(name), w)
+	key := ex.inputName(name)
+	if ex.replay != nil {
+		return K(w, ex.replay[key])
+	}
+	return ex.ts.Var(key, w)
 }
 
 // Assume adds a harness assumption; an unsatisfiable one ends the path silently.
